@@ -40,6 +40,12 @@ BODIES += [
                            ['n', R.Var('s', 'x')]], next(f)], 2),
     ('hav', lambda f: [next(f), [R.Var('h', next(f)),
                                  R.Var('(sh)', ['y', next(f)])]], 3),
+    # descriptors attached and declared but not referenced by the body (the
+    # count in the header is independent of the body; GDBus lets an
+    # application attach a descriptor list to any message)
+    ('', lambda f: [], 2, 2),
+    ('s', lambda f: ['plain'], 1, 1),
+    ('hs', lambda f: [next(f), 'x'], 2, 1),
 ]
 
 
@@ -69,9 +75,11 @@ def _mk(idxs):
     counter = itertools.count(10)
     out = []
     for i in idxs:
-        sig, b, n = BODIES[i]
+        sig, b, n = BODIES[i][:3]
         vals = b(counter)
-        out.append((sig, vals, _fd_values(sig, vals)))
+        unreferenced = BODIES[i][3] if len(BODIES[i]) > 3 else 0
+        out.append((sig, vals, _fd_values(sig, vals)
+                    + [next(counter) for _ in range(unreferenced)]))
     return out
 
 
